@@ -4,6 +4,7 @@
 // VF-BOUND: "all seeds" -> 4 (quick) / 16 (thorough) seeds; "follows the law" -> Kolmogorov distance on an N-per-draw lattice, tolerance 2d/N (d = uniform draws consumed), so distributional errors below that are invisible; weights/source sizes up to 5 (quick) / 6; margins with 2..3 rows/columns and total <= 6 (quick) / <= 8 and 2..4 (thorough) exhaustively plus structured margins up to total 200
 // VF-LEVEL: Exhaustive enumeration of the random environment on a lattice (no sampling): structural guarantees are checked on every enumerated stream; laws are checked as deterministic quadratures of the sampler's push-forward measure, which separates mean/rate/variance/scale confusions (they move the distribution function by > 0.3) from correct code (measured distance about 0.01).
 // VF-ASSUME: libstdc++ 12 mapping from 32-bit words to variates (observed, not assumed: the harness reads the generator position to see what a call consumed);; ASan/UBSan/libstdc++ assertions are sound detectors;; the library's own cumulative functions are the reference for the laws (they are checked independently in C08)
+// VF-BUDGET_THOROUGH: 3600
 // VF-TECHNIQUE: exhaustive enumeration of environment answers (injected generator words) on the real samplers; explicit history enumeration for reproducibility
 #include "vf.hpp"
 #include "common.hpp"
@@ -131,10 +132,13 @@ int main(int argc, char** argv) {
     }
     if (!usable) { c.tag("law:not-judged(no draw count 1..4 gives first-attempt paths):" + cfg0.name); return; }
     if (cfg.d != cfg0.d) c.tag("law:draw-count-differs-from-configured");
-    double tol = 2.0 * cfg.d / N;
+    // lattice resolution: the push-forward of N^d equally weighted points deviates from the law by at most d/N in Kolmogorov distance per
+    // unit of probability; when the sampler rejects a fraction of the lattice points the accepted ones carry the conditional law at
+    // a resolution coarser by tot/acc (a rejection sampler with acceptance 0.4 keeps 0.4 N points per axis of probability)
+    double tol = 2.0 * cfg.d / N * ((double)tot / (double)acc);
     if (acc * 2 >= (uint64_t)N) c.nontrivial();
     c.tag("law:judged");
-    if (!(ks <= tol)) c.fail("law|distribution-differs-from-cumulative-function", cfg.name + ": Kolmogorov distance " + num(ks) + " between the sampler's lattice push-forward (N=" + str(N) + " per draw, " + str(cfg.d) + " draw(s), " + str(acc) + " first-attempt paths) and the library's cumulative function with the same parameters; tolerance 2d/N = " + num(tol));
+    if (!(ks <= tol)) c.fail("law|distribution-differs-from-cumulative-function", cfg.name + ": Kolmogorov distance " + num(ks) + " between the sampler's lattice push-forward (N=" + str(N) + " per draw, " + str(cfg.d) + " draw(s), " + str(acc) + " first-attempt paths) and the library's cumulative function with the same parameters; tolerance 2d/N x lattice/accepted = " + num(tol));
     c.tag(ks <= tol / 4 ? "law:ks<=tol/4" : ks <= tol ? "law:ks<=tol" : "law:ks>tol");
     c.sample(cfg.name + ": KS=" + num(ks) + " tol=" + num(tol) + " accepted " + str(acc) + "/" + str(tot));
   }, 300.0, 1);
@@ -248,7 +252,9 @@ int main(int argc, char** argv) {
     }, 60.0, 1);
   }
 
-  // contingency tables: all margin vectors with 2..R rows/cols and total <= T, every stream on a lattice
+  // contingency tables: all margin vectors with 2..R rows/cols and total <= T, every stream on a lattice (the largest space of the thorough
+  // tier: registered last, so that the global deadline can only cut this one)
+  std::function<void()> registerRcont2;
   {
     int RC = th ? 4 : 3, T = th ? 8 : 6;
     std::vector<std::pair<std::vector<size_t>, std::vector<size_t>>> MG;
@@ -258,7 +264,8 @@ int main(int argc, char** argv) {
     // structured larger margins
     for (size_t tot : {20, 50, 200}) { MG.push_back({{tot - 2, 1, 1}, {tot / 2, tot - tot / 2}}); MG.push_back({{tot / 2, tot - tot / 2}, {tot / 2, tot - tot / 2}}); MG.push_back({{tot / 3, tot / 3, tot - 2 * (tot / 3)}, {tot - 1, 0, 1}}); MG.push_back({{tot / 4, tot / 4, tot / 4, tot - 3 * (tot / 4)}, {tot / 5, tot / 5, tot / 5, tot / 5, tot - 4 * (tot / 5)}}); }
     auto MP = std::make_shared<std::vector<std::pair<std::vector<size_t>, std::vector<size_t>>>>(MG);
-    R.space("structure:rcont2:rc<=" + str(RC) + ":total<=" + str(T) + "+structured", MG.size(), [=](uint64_t idx, vf::Case& c) {
+    size_t nMG = MG.size();
+    registerRcont2 = [&R, RC, T, nMG, MP]() { R.space("structure:rcont2:rc<=" + str(RC) + ":total<=" + str(T) + "+structured", nMG, [=](uint64_t idx, vf::Case& c) {
       const auto& mg = (*MP)[idx]; size_t nr = mg.first.size(), nc = mg.second.size();
       std::string in = "margins rows " + vf::vstr(mg.first) + " cols " + vf::vstr(mg.second);
       c.site("ContingencyTableGenerator ctor");
@@ -276,7 +283,7 @@ int main(int argc, char** argv) {
         }, paths, capped);
       c.out->evals += paths; c.nontrivial(); c.tag(capped ? "rcont2:draws-capped" : "rcont2:all-streams");
       if (idx % 211 == 0) c.sample(in + ": " + str(paths) + " streams");
-    }, 120.0);
+    }, 120.0); };
     // independence test: p-value in [0,1] for every table (all tables with positive margins, 2..3 x 2..3, total <= T), chi-square and randomisation variants
     std::vector<std::vector<std::vector<size_t>>> TB;
     for (int r = 2; r <= 3; ++r) for (int cc = 2; cc <= 3; ++cc) { int cells = r * cc; std::vector<size_t> cur; std::function<void(int, int)> rec = [&](int pos, int left) { if (pos == cells) { std::vector<std::vector<size_t>> t((size_t)r, std::vector<size_t>((size_t)cc)); for (int i = 0; i < cells; ++i) t[(size_t)(i / cc)][(size_t)(i % cc)] = cur[(size_t)i]; TB.push_back(t); return; } for (int x = 0; x <= left; ++x) { cur.push_back((size_t)x); rec(pos + 1, left - x); cur.pop_back(); } }; rec(0, th ? 6 : 5); }
@@ -361,6 +368,7 @@ int main(int argc, char** argv) {
     }, 30.0);
   }
 
+  registerRcont2();
   R.expectSeen("law:ks<=tol/4"); R.expectSeen("law:judged", laws.size()); /* every law configuration must have been judged */ R.expectSeen("getSample:all-streams"); R.expectSeen("rcont2:all-streams"); R.expectSeen("contingency-test->ok");
   R.note("law tolerance is the lattice discretisation bound 2d/N; measured distances are written in the samples");
   R.note("a zero-weight entry is judged 'never drawn' on the interior lattice (u=0 exactly has probability 2^-64 and is part of the extremes only for range checks)");
